@@ -125,6 +125,39 @@ def t_seed_keypair(it, p):
     return [it.new_buffer(32, "pk", False, [0] * 32), it.new_buffer(64, "sk", False, [0] * 64), it.new_buffer(32, "seed", True)]
 
 
+def t_aead_enc(klen, nlen, abytes, impl=None):
+    """crypto_aead_*_encrypt_detached(c, mac, maclen_p, m, mlen, ad, adlen, nsec, npub, k): key and message secret"""
+    def setup(it, p):
+        n, a = p["len"], p.get("adlen", 5)
+        if impl:
+            gp = [g for g in it.mod.globals if g.startswith("@implementation")]
+            it.store_bytes(it.global_ptr(gp[0]), it.global_ptr("@" + impl), 8, "select back end")
+        return [it.new_buffer(n, "c", False, [0] * n), it.new_buffer(abytes, "mac", False, [0] * abytes), 0,
+                it.new_buffer(n, "m", True), n, it.new_buffer(a, "ad", False, [(3 * i + 1) & 0xff for i in range(a)]), a, 0,
+                it.new_buffer(nlen, "npub", False, [(7 * i + 2) & 0xff for i in range(nlen)]), it.new_buffer(klen, "key", True)]
+    return setup
+
+
+def t_aead_dec(klen, nlen, abytes, impl=None):
+    """crypto_aead_*_decrypt_detached(m, nsec, c, clen, mac, ad, adlen, npub, k): key secret, ciphertext/tag public;
+    the verification verdict is a public result (declassified by the accept/reject branch being on public data only
+    after the constant-time comparison)"""
+    def setup(it, p):
+        n, a = p["len"], p.get("adlen", 5)
+        if impl:
+            gp = [g for g in it.mod.globals if g.startswith("@implementation")]
+            it.store_bytes(it.global_ptr(gp[0]), it.global_ptr("@" + impl), 8, "select back end")
+        return [it.new_buffer(n, "m", False, [0] * n), 0, it.new_buffer(n, "c", False, [(5 * i + 1) & 0xff for i in range(n)]), n,
+                it.new_buffer(abytes, "mac", False, [0] * abytes), it.new_buffer(a, "ad", False, [(3 * i + 1) & 0xff for i in range(a)]), a,
+                it.new_buffer(nlen, "npub", False, [(7 * i + 2) & 0xff for i in range(nlen)]), it.new_buffer(klen, "key", True)]
+    return setup
+
+
+def _aegis_units(alg):
+    d = "crypto_aead/%s/" % alg
+    return [d + "aead_%s.c" % alg, d + "%s_aesni.c" % alg, d + "%s_soft.c" % alg, "crypto_core/softaes/softaes.c", "crypto_verify/verify.c", "sodium/utils.c"]
+
+
 def _name(it, base):
     for cand in ("@" + base, "@_sodium_" + base):
         if cand in it.mod.functions:
@@ -178,6 +211,12 @@ TARGETS = [
          setup=t_x25519_base, params=[{}], heavy=True),
     dict(name="ge25519_scalarmult_base", units=ED, entry="ge25519_scalarmult_base", setup=t_ge_base, params=[{}], heavy=True),
     dict(name="ge25519_scalarmult", units=ED, entry="ge25519_scalarmult", setup=t_ge_scalarmult, params=[{}], heavy=True),
+    dict(name="aes256gcm-aesni-encrypt", units=["crypto_aead/aes256gcm/aesni/aead_aes256gcm_aesni.c", "crypto_verify/verify.c", "sodium/utils.c"],
+         entry="crypto_aead_aes256gcm_encrypt_detached", setup=t_aead_enc(32, 12, 16), params=[{"len": n, "adlen": a} for n, a in ((0, 0), (1, 5), (17, 16), (113, 33), (225, 225), (449, 1))]),
+    dict(name="aegis128l-aesni-encrypt", units=_aegis_units("aegis128l"), entry="crypto_aead_aegis128l_encrypt_detached",
+         setup=t_aead_enc(16, 16, 32, "aegis128l_aesni_implementation"), params=[{"len": n, "adlen": a} for n, a in ((0, 0), (1, 5), (33, 32), (65, 65))]),
+    dict(name="aegis256-aesni-encrypt", units=_aegis_units("aegis256"), entry="crypto_aead_aegis256_encrypt_detached",
+         setup=t_aead_enc(32, 32, 32, "aegis256_aesni_implementation"), params=[{"len": n, "adlen": a} for n, a in ((0, 0), (1, 5), (17, 16), (33, 33))]),
     dict(name="ed25519-seed-keypair", units=["crypto_sign/ed25519/ref10/keypair.c", "crypto_hash/sha512/cp/hash_sha512_cp.c"] + ED,
          entry="crypto_sign_ed25519_seed_keypair", setup=t_seed_keypair, params=[{}], heavy=True),
     dict(name="ed25519-sign", units=["crypto_sign/ed25519/ref10/sign.c", "crypto_hash/sha512/cp/hash_sha512_cp.c"] + ED,
